@@ -2,6 +2,7 @@
 The patch is applied to /repo only for the duration of the check runs and reverted straight afterwards."""
 import json, os, pathlib, shutil, subprocess, sys, tempfile
 ID, k = sys.argv[1], sys.argv[2]
+PROP = ID.rstrip("x")
 srcd = pathlib.Path(f"/tmp/seed/{ID}.out/{k}")
 dst = pathlib.Path(f"/verif/seeded/{ID}-{k}")
 dst.mkdir(parents=True, exist_ok=True)
@@ -23,13 +24,13 @@ finally:
     subprocess.run(["git", "-C", "/repo", "checkout", "--", "."], check=True)
 notes = (srcd / "notes.md").read_text()
 meta = {
-    "id": f"{ID}-{k}", "property_broken": ID, "source": "independent sub-agent given only the property text and a scratch worktree",
+    "id": f"{ID}-{k}", "property_broken": PROP, "source": "independent sub-agent given only the property text and a scratch worktree",
     "needs_to_manifest": notes.strip().split("\n")[0:12],
     "confirmed_by": "tools/confirm_seed.sh in a scratch worktree: demo exit 0 on the clean tree, non-zero on the mutated tree, 180/180 stable tests pass with the mutation",
     "confirmation": conf,
     "checks_run": "every ./check <Cnn> --tier quick with the patch applied to /repo (reverted afterwards)",
     "caught_by": caught,
-    "caught_by_seeded_property": ID in caught and caught[ID]["exit"] == 1,
+    "caught_by_seeded_property": PROP in caught and caught[PROP]["exit"] == 1,
 }
 json.dump(meta, open(dst / "meta.json", "w"), indent=1)
 print(ID, k, "caught by", {p: v["exit"] for p, v in caught.items()})
